@@ -22,20 +22,30 @@ Record case := mk {
   c_kw_ws : option (list watcher);           (* watchers= of the call(s), when passed *)
   c_sudo : option sudo_info;                 (* when driven through Context.sudo *)
   c_how : via;
+  c_eof : bool;                              (* in_stream at end-of-file (else in_stream=False) *)
   c_calls : list call_obs;                   (* successive calls, same objects *)
   c_occ : list (pattern * string * nat)      (* (pattern, text, len(re.findall(pattern, text, re.S))) *)
 }.
 
-Definition writes_eqb (a b : list (list string)) : bool := list_eqb strs_eqb a b.
+(** per read, the text written (not the write calls) *)
+Definition writes_eqb (a b : list (list string)) : bool :=
+  list_eqb (fun x y => String.eqb (flat x) (flat y)) a b.
 
-Definition call_corr (v : variant) (ws : list watcher) (how : via) (k : call_obs) : bool :=
-  let '(w, r) := run v ws (k_sched k) in
-  writes_eqb w (k_writes k)
-  && Bool.eqb (fst r) (fst (k_raised k)) && Bool.eqb (snd r) (snd (k_raised k))
-  && opt_exn_eqb (outcome_exn how r) (k_exc k).
+Definition call_corr (v : variant) (eof : bool) (ws : list watcher) (how : via) (k : call_obs) : bool :=
+  if eof then
+    let '(w, r, broke) := run_eof v ws (k_sched k) in
+    writes_eqb w (k_writes k)
+    && Bool.eqb (fst r) (fst (k_raised k)) && Bool.eqb (snd r) (snd (k_raised k))
+    && opt_exn_eqb (outcome_exn_eof how r broke) (k_exc k)
+  else
+    let '(w, r) := run v ws (k_sched k) in
+    writes_eqb w (k_writes k)
+    && Bool.eqb (fst r) (fst (k_raised k)) && Bool.eqb (snd r) (snd (k_raised k))
+    && opt_exn_eqb (outcome_exn how r) (k_exc k).
 
 Definition corr_with (v : variant) (c : case) : bool :=
-  forallb (call_corr v (call_watchers (c_cfg_ws c) (c_kw_ws c) (c_sudo c)) (c_how c)) (c_calls c).
+  forallb (call_corr v (c_eof c) (call_watchers (c_cfg_ws c) (c_kw_ws c) (c_sudo c)) (c_how c))
+          (c_calls c).
 
 (** the regex-family semantics agrees with the real [re] module on this case *)
 Definition re_ok (c : case) : bool :=
